@@ -3,3 +3,4 @@ NEXT Next
 CONSTANTS
   MaxSegs = 2
 INVARIANT Emit
+INVARIANT EmitOrd
